@@ -672,6 +672,55 @@ pub fn cache_case(f: &[&str]) -> String {
             }
         }
     }
+    if f[2] == "clone" && verdict.is_none() {
+        // the object is sealed and cloned the way a host reuses a built object; on every clone each constant must read back at its
+        // address, and adding an EQUAL constant again must return that address without growing the data (the clone interns too)
+        let last = d.get_data().len().saturating_sub(1);
+        if d.set_end_of_constant(last).is_err() {
+            return "SETUP-ERR set_end_of_constant".to_string();
+        }
+        for which in 0..4 {
+            let cloned = match which {
+                0 => d.clone_with_aux_without_data(),
+                1 => d.clone_with_aux_and_retained_data(vec![]),
+                2 => d.clone_without_data(),
+                _ => d.clone_with_retained_data(vec![]),
+            };
+            let mut c = match cloned {
+                Ok(c) => c,
+                Err(_) => return "SETUP-ERR clone".to_string(),
+            };
+            let before = c.get_data().len();
+            for (m, field) in f[3..].iter().enumerate() {
+                if render(&c, addrs[m], 0) != wants[m] {
+                    verdict = Some(format!("FAIL:clone{}:read[{}]", which, m));
+                    break;
+                }
+                if wants[m] == "(f nan)" {
+                    continue;
+                }
+                let t = parse_term(field).unwrap();
+                match cache_add_term(&mut c, &t) {
+                    Ok((a, _, _)) => {
+                        if a != addrs[m] {
+                            verdict = Some(format!("FAIL:clone{}:intern[{}] {}!={}", which, m, a, addrs[m]));
+                            break;
+                        }
+                    }
+                    Err(e) => {
+                        verdict = Some(format!("FAIL:clone{}:add[{}] {}", which, m, e));
+                        break;
+                    }
+                }
+            }
+            if verdict.is_none() && c.get_data().len() != before {
+                verdict = Some(format!("FAIL:clone{}:grew {}->{}", which, before, c.get_data().len()));
+            }
+            if verdict.is_some() {
+                break;
+            }
+        }
+    }
     let a: Vec<String> = addrs.iter().map(|a| format!("{}", a)).collect();
     let r: Vec<String> = addrs.iter().map(|a| render(&d, *a, 0)).collect();
     format!("ok A={} R={} X={} O={}", a.join(","), r.join(";"), hashes.join(","), verdict.unwrap_or("ok".to_string()))
